@@ -210,6 +210,13 @@ def u_ctl():
     add("ctl-alias", ["a: %s" % Q2], Q2, ["b = a", "c = b", "return (a ^ b) + c"])
     add("ctl-alias", ["a: bool", "b: bool", "c: bool"], "bool", ["v = a and b", "x = v and c", "v = v ^ c", "y = v and c", "return x ^ y"])
     add("ctl-alias", ["a: bool", "b: bool", "c: bool"], "Tuple[bool, bool]", ["x = (a ^ b) and c", "y = a and c", "return (x ^ y, x)"])
+    # a returned alias of an argument still needs its own output qubit
+    add("ctl-alias", ["a: bool", "b: bool"], "bool", ["v = a", "return v"])
+    add("ctl-alias", ["a: bool", "b: bool"], "bool", ["v = b", "w = v", "return w"])
+    add("ctl-alias", ["a: %s" % Q2, "b: bool"], "bool", ["v = a", "return v[1]"])
+    add("ctl-alias", ["a: %s" % Q2], Q2, ["v = a", "return v"])
+    add("ctl-alias", ["a: bool", "b: bool"], "Tuple[bool, bool]", ["v = a", "w = a", "return (w, v)"])
+    add("ctl-alias", ["a: bool", "b: bool"], "bool", ["v = a", "if b:", "    v = a", "return v"])
     # the loop variable is read after the loop
     add("ctl-for", ["a: %s" % Q4], Q4, ["i = 0", "for i in range(3):", "    a += i", "return a + i"])
     add("ctl-for", ["a: Qlist[%s, 3]" % Q2], Q2, ["x = a[0]", "c = 0", "for x in a:", "    c = c ^ x", "return c ^ x"])
@@ -610,6 +617,35 @@ def u_stale(full=False):
                             continue
                         body = ["t = %s" % i0, "u = %s" % (ct % cp), "t = %s" % r, "v = %s" % (u.replace("%s", cp)), "return (u, v)"]
                         out.append(("ctl-stale", _f(["a: bool", "b: bool", "c: bool", "d: bool", "e: bool"], "Tuple[bool, bool]", body)))
+    return out
+
+
+def u_selfif(full=False):
+    """a variable is re-assigned from itself under an if (with or without else), with compound
+    operands, and more scratch work follows: temporaries outlive the ancillas they were computed
+    from and released ancillas are handed out again while their past is still needed"""
+    inits = ["b", "a and b", "a ^ c"]
+    conds = ["d", "d and a", "not e"]
+    ops = ["^", "and", "or"]
+    comps = ["(e or b or d)", "((a and c) or e)", "(not (b ^ e))", "((a or b) and (c or e))"]
+    elses = [None, ("^", "(c or (a and e))"), ("and", "(b or not d)")]
+    rets = [("bool", "(b or c) and e"), ("bool", "t"), ("bool", "t ^ (b or c)"), ("Tuple[bool, bool]", "(t, (b or c) and e)")]
+    out = []
+    k = 0
+    for i0 in inits:
+        for cd in conds:
+            for op in ops:
+                for cp in comps:
+                    for el in elses:
+                        for rt, rexp in rets:
+                            k += 1
+                            if not full and k % 12 != 5:
+                                continue
+                            body = ["t = %s" % i0, "if %s:" % cd, "    t = t %s %s" % (op, cp)]
+                            if el:
+                                body += ["else:", "    t = t %s %s" % el]
+                            body.append("return %s" % rexp)
+                            out.append(("ctl-selfif", _f(["a: bool", "b: bool", "c: bool", "d: bool", "e: bool"], rt, body)))
     return out
 
 
